@@ -39,7 +39,12 @@ def Series(params: SeriesParams) -> h.Module:
     if params.nser < 1:
         raise ValueError(f"Invalid Series() generator with nser={params.nser}")
     if params.nser == 1:
-        return Wrapper(params.unit)  # Easy mode
+        # Easy mode: nothing to stack. Check the series ports nonetheless, on a throw-away copy of the unit's ports.
+        check = h.Module()
+        for p in _unit_io(params.unit).values():
+            check.add(_copy_port(p))
+        _check_seriesconns(_seriesconns(check, params.conns))
+        return Wrapper(params.unit)
 
     from .instantiable import io
 
@@ -52,12 +57,7 @@ def Series(params: SeriesParams) -> h.Module:
 
     # Sort out the two series ports
     series_conns = _seriesconns(m, params.conns)
-    if series_conns[0] is series_conns[1]:
-        msg = f"Series: the two series ports must differ, got {series_conns[0].name} twice"
-        raise ValueError(msg)
-    if series_conns[0].width != series_conns[1].width:
-        msg = f"Series: series ports {series_conns[0].name} and {series_conns[1].name} have different widths"
-        raise ValueError(msg)
+    _check_seriesconns(series_conns)
 
     # Create the internal series-connected signals, and concatenate them with the series ports
     # Each of the `nser - 1` internal nodes is as wide as the series ports.
@@ -71,6 +71,16 @@ def Series(params: SeriesParams) -> h.Module:
 
     # And return the module
     return m
+
+
+def _check_seriesconns(series_conns: Tuple[h.Signal, h.Signal]) -> None:
+    # Check that the two series ports can be stacked
+    if series_conns[0] is series_conns[1]:
+        msg = f"Series: the two series ports must differ, got {series_conns[0].name} twice"
+        raise ValueError(msg)
+    if series_conns[0].width != series_conns[1].width:
+        msg = f"Series: series ports {series_conns[0].name} and {series_conns[1].name} have different widths"
+        raise ValueError(msg)
 
 
 def _seriesconns(m: h.Module, conns: SeriesConns) -> Tuple[h.Signal, h.Signal]:
